@@ -209,10 +209,6 @@ def runCase (prop : Prop') (inp obs : String) : CaseResult :=
       | some _ =>
         match kind with
         | some "in-string" => "unclosed-string-after-statement"
-        | some "in-comment" =>
-          -- only the text `/*/`: any other unclosed comment that is not recognised is a new failure
-          if ((streamOf impl "L.toks").map hasFakeClosedComment).getD false then "unclosed-block-comment-ending-in-star-slash" else ""
-        | some "empty-parens" => "empty-lambda-parameter-list-at-end-of-line"
         | _ => ""
   { model := modelStr, agree := modelStr == obs, stmtModel := sm, stmtImpl := si,
     tags := (match fm.res with | some r => topTags r | none => ["panic"]) ++
